@@ -2,7 +2,7 @@
 \* 2 concurrent requests x 5 extension lists (0-3 extensions) x {none, map, lru1, lru2}
 \* x suggestions on/off x 9 request classes + rejecting mutators; all
 \* interleavings at shared-state steps (local event runs fused).
-\* Measured: see notes/C03.md (states/time recorded by the driver in evidence).
+\* Measured: 172 264 distinct / 342 572 generated states, depth 15, 11-40 s (4 workers); I1-I5 hold.
 SPECIFICATION MCSpec
 CONSTANTS
   Reqs = {1, 2}
